@@ -68,6 +68,9 @@ def py_value(v):
             return ["tuple"] + [one(y) for y in x]
         return None
     try:
+        if isinstance(v, dict):           # a recurrence rule: its parts and their decoded values
+            return ["rule"] + [[str(k), [one(x) if one(x) is not None else str(x) for x in (v[k] if isinstance(v[k], (list, tuple)) else [v[k]])]]
+                               for k in sorted(v.keys())]
         if hasattr(v, "dts"):
             return ["list"] + [one(x) for x in v.dts]
         if hasattr(v, "dt"):
@@ -251,6 +254,7 @@ PROP_MENU = [
     ("RDATE;VALUE=DATE", "20240102T103000"), ("TRIGGER;VALUE=DURATION", "20200102T090000Z"),
     # characters outside the BMP in parameter values (bare and quoted); date lists mixing value kinds
     ("ATTENDEE;CN=Bob\U0001F600", "mailto:bob@example.com"), ('ORGANIZER;CN="\U00020000 x, y";X-E=\U0001F600\U0001F600', "mailto:o@example.com"),
+    ("RRULE", "RSCALE=GREGORIAN;FREQ=YEARLY;SKIP=OMIT"), ("RRULE", "FREQ=MONTHLY;BYMONTHDAY=1,-1;WKST=MO;INTERVAL=1"),
     ("FREEBUSY", "20240102T100000Z/PT1H,20240102T1500Z/PT1H"), ("FREEBUSY;FBTYPE=BUSY", "20240102T100000Z/PT1H,20240103T100000Z/PT1H,x"),
     ("RDATE", "20240101T000000,2024"), ("EXDATE;TZID=Europe/Berlin", "20240109T100000,20240116T1"), ("CATEGORIES", "a,b\\,c,"),
     ("EXDATE", "20240103,20240104T100000"), ("RDATE", "20240201T100000,20240202T100000Z"), ("EXDATE", "20240104T100000Z,20240103"),
